@@ -1513,9 +1513,11 @@ impl<'input, T: Input> Scanner<'input, T> {
         self.remove_simple_key()?;
         self.allow_simple_key();
 
-        self.end_implicit_mapping(self.mark);
-        // In a flow sequence, an explicit `? key : value` entry ends with the entry.
+        // A `,` directly inside a flow sequence ends the entry: an implicit `key: value` mapping
+        // or an explicit `? key : value` one. A `,` inside a flow mapping (which may itself be the
+        // value of such an entry) does not.
         if let Some((false, _)) = self.flow_collections.last() {
+            self.end_implicit_mapping(self.mark);
             self.flow_mapping_started = false;
         }
 
